@@ -291,6 +291,7 @@ class SimPopen:
         self._orphan_end = None  # virtual time until which a descendant of the helper keeps the pipes open
         self._orphan_killed = False
         self._orphan_escaped = False
+        self._group_signalled = False  # os.killpg on the helper's own group was used: the caller takes care of descendants
         self._chunks, self._drip, self._kill_t = [], None, None
         self._inherited_done = False
         self._reader_since = None  # virtual time at which the parent started to read the helper's pipes
@@ -426,6 +427,11 @@ class SimPopen:
         chunks = []
         if kind in ("ok", "slow", "orphan"):
             chunks += [(t_out, "out", out), (t_out, "err", err)]
+        elif kind == "linger":
+            # the function returned and the result was printed, but the interpreter cannot exit (a non-daemon thread the
+            # function started is still running): complete output, no EOF, no exit status
+            chunks += [(t_out, "out", out), (t_out, "err", err)]
+            dur, rc = INF, None
         elif kind == "stall":
             dur = INF  # frozen before it did anything
         elif kind == "crash":
@@ -669,6 +675,9 @@ class SimPopen:
         """os.killpg on the helper's own process group: the helper and everything it started"""
         w = self.world
         self.send_signal(sig)
+        self._group_signalled = True
+        if sig != signal.SIGKILL and self._plan.get("ignores_term"):
+            return  # the descendant ignores everything that can be ignored
         if self._orphan_end is not None and not self._orphan_killed and not self._orphan_escaped \
                 and self._orphan_end > w.clock.now and sig in (signal.SIGKILL, signal.SIGTERM, signal.SIGINT, signal.SIGHUP, signal.SIGQUIT):
             self._orphan_killed = True
